@@ -930,3 +930,66 @@ def rule_rejections(ctx: Ctx, out: Collector) -> None:
                     f'{"; ".join(details)[:200]}): valid declarations are rejected or the defect is no longer detected', props={'C16'})
     if n_ok == 0:
         raise AnalysisError('no rejection recognised (VL-3 anchors vanished)')
+
+
+def rule_annotation_check_semantics(ctx: Ctx, out: Collector) -> None:
+    """VL-7: the annotation check rejects a run method with an un-annotated parameter whatever else is true of that
+    parameter (default value, position), accepts fully annotated ones, and names the right error.  The function that
+    raises UndefinedParamAnnotation is interpreted over small abstract signatures."""
+    from ..absint import AClass, AObj, ARaise, Interp, Oracle, TOP, enumerate_outcomes
+    p = ctx.p
+    b = _builder_class(ctx)
+    target = None
+    for m in b.methods.values():
+        if any(isinstance(n, ast.Raise) and isinstance(n.exc, ast.Call) and (dotted(n.exc.func) or '').endswith('UndefinedParamAnnotation')
+               for n in ast.walk(m.node)):
+            target = m
+    if target is None:
+        raise AnalysisError('no function raising UndefinedParamAnnotation found (VL-7 anchor vanished)')
+    EMPTY = AClass(('ext', 'inspect._empty'))
+
+    def param(name, default=EMPTY, kind='POSITIONAL_OR_KEYWORD'):
+        return AObj(('ext', 'inspect.Parameter'), {'name': name, 'default': default, 'empty': EMPTY, 'annotation': TOP,
+                                                   'kind': kind, 'POSITIONAL_OR_KEYWORD': 'POSITIONAL_OR_KEYWORD',
+                                                   'VAR_POSITIONAL': 'VAR_POSITIONAL', 'VAR_KEYWORD': 'VAR_KEYWORD',
+                                                   'KEYWORD_ONLY': 'KEYWORD_ONLY', 'POSITIONAL_ONLY': 'POSITIONAL_ONLY'})
+    MARK = AObj(('ext', 'Mark'), {}, tag='mark')
+    worlds = {
+        'all parameters annotated': ({'x': param('x')}, {'x': MARK, 'return': TOP}, None),
+        'un-annotated parameter without a default': ({'x': param('x'), 'y': param('y')}, {'y': MARK}, 'UndefinedParamAnnotation'),
+        'un-annotated parameter with a default value': ({'x': param('x', default=5), 'y': param('y')}, {'y': MARK}, 'UndefinedParamAnnotation'),
+        'un-annotated keyword-only parameter': ({'y': param('y'), 'x': param('x', kind='KEYWORD_ONLY')}, {'y': MARK}, 'UndefinedParamAnnotation'),
+        'no annotations at all': ({'x': param('x')}, {}, 'UndefinedAnnotation'),
+        'no parameters, no annotations': ({}, {}, None),
+    }
+    problems = []
+    table = {}
+    for label, (params, annotations, expect) in worlds.items():
+        def run(oracle: Oracle, params=params, annotations=annotations):
+            run_method = AObj(('ext', 'function'), {'__annotations__': dict(annotations)}, tag='run-method')
+            stubs = {}
+            for u in p.functions.values():
+                if u.parent is None and u.cls is None and u.name == 'get_callable_run_method':
+                    stubs[u.fid] = lambda interp, a, k, s_, rm=run_method: rm
+            sig = AObj(('ext', 'inspect.Signature'), {'parameters': dict(params)})
+            interp = Interp(p, oracle, stubs=stubs, ext_stubs={'inspect.signature': lambda a, k, sig=sig: sig})
+            node = AObj(('ext', 'Node'), {'process': run_method})
+            args = [node]
+            self_obj = None if target.is_static else AObj(b, {})
+            interp.call_unit(target, args, {}, self_obj)
+            return 'accepted'
+        outs = enumerate_outcomes(run)
+        got = sorted({'accepted' if o[0] == 'value' else str(o[1]) for o in outs})
+        table[label] = got
+        if expect is None:
+            if got != ['accepted']:
+                problems.append(f'{label}: {got} (must be accepted)')
+        elif not (len(got) == 1 and expect in got[0] and (expect != 'UndefinedAnnotation' or 'UndefinedParamAnnotation' not in got[0])):
+            problems.append(f'{label}: {got} (must raise {expect})')
+    cons = f'{target.module.name}::{target.qualname}::every un-annotated parameter is rejected, fully annotated run methods are accepted'
+    if not problems:
+        out.ok('VL-7', cons, p.loc(target, target.node), f'{len(worlds)} abstract signatures', table=table)
+    else:
+        out.bad('VL-7', cons, p.loc(target, target.node),
+                'the annotation check does not reject exactly the run methods with an un-annotated parameter: ' + '; '.join(problems[:3])
+                + ' - such a declaration is built and fails (or silently drops the input) at run time', table=table, props={'C16'})
